@@ -8,6 +8,7 @@ import (
 	"runtime"
 	"sort"
 	"sync"
+	"time"
 
 	"golang.org/x/tools/go/ssa"
 )
@@ -153,15 +154,20 @@ type nafTab struct {
 	maxVars int
 	phiIdx  [2]int // positions of pos and carry among the instructions of the head
 	probing bool
-	vbad    int // violations of the value invariant (all, not only the reported ones)
-	rbad    int // violations of the structural clauses
+	stopped string    // non-empty: the tabulation was abandoned (budget), with the reason
+	until   time.Time // wall-clock budget of this task
+	vbad    int       // violations of the value invariant (all, not only the reported ones)
+	rbad    int       // violations of the structural clauses
 }
 
 // nafChunks is the number of position ranges each width is split into; the
 // (width, range) tasks are tabulated concurrently, each in its own World.
 const (
-	nafChunks  = 4
-	nafWorkers = 4
+	nafChunks     = 4
+	nafWorkers    = 4
+	nafBodySteps  = 20_000           // instruction budget of one run of the loop body (a run takes about 50)
+	nafMaxBad     = 50               // violating leaves of one task before the tabulation is abandoned
+	nafTaskBudget = 30 * time.Second // wall-clock budget of one (width, range) task
 )
 
 func (c *checker) recodeNAF(rc *recodeCtx) {
@@ -207,6 +213,10 @@ func (c *checker) recodeNAF(rc *recodeCtx) {
 					tk.err = fmt.Sprintf("analysis panicked: %v", e)
 				}
 			}()
+			if el := time.Since(c.start); el > DriverBudget {
+				tk.err = fmt.Sprintf("undecided: budget exceeded: the driver has used %s of wall-clock time (limit %s) before this part of the tabulation", el.Round(time.Second), DriverBudget)
+				return
+			}
 			tk.tab, tk.err = c.nafSetup(rc, fn, tk.wd)
 			if tk.err == "" {
 				per := 256 / nafChunks
@@ -347,6 +357,8 @@ func (c *checker) nafSetup(rc *recodeCtx, fn *ssa.Function, wd int) (*nafTab, st
 	}
 	t.cells = w.outputCells("naf", 256, ikind{bits: 8, signed: true})
 	t.mem.objs[t.naf] = &Agg{t.cells}
+	w.maxSteps = nafBodySteps
+	t.until = time.Now().Add(nafTaskBudget)
 	return t, ""
 }
 
@@ -376,6 +388,10 @@ func (c *checker) nafReport(fn *ssa.Function, wd int, name string, tabs []*nafTa
 		rbad += tb.rbad
 		vmsgs = append(vmsgs, tb.vmsgs...)
 		rmsgs = append(rmsgs, tb.rmsgs...)
+		if tb.stopped != "" {
+			rmsgs = append([]string{tb.stopped}, rmsgs...)
+			rbad++
+		}
 		for k, v := range tb.trans {
 			trans[k] = v
 		}
@@ -465,7 +481,7 @@ func (t *nafTab) run(st nafState, assign map[int]int8) *Outcome {
 	fr.env[t.carry] = mkConst(int64(st.carry))
 	mem := t.mem.clone()
 	t.w.assign = assign
-	t.w.steps = 0
+	t.w.beginRun()
 	nfail := len(t.w.Fails)
 	out := t.w.guard(fr, mem, func() (Value, *Outcome) { return t.w.exec(fr, mem, t.head, nil, true) })
 	t.w.assign = nil
@@ -545,6 +561,17 @@ func (t *nafTab) split(st nafState, assign map[int]int8, vs []int, depth int) bo
 // assignment wherever the outcome (a branch, the next state, the digit
 // written) is not concrete.
 func (t *nafTab) explore(st nafState, assign map[int]int8, depth int) {
+	if t.stopped != "" {
+		return
+	}
+	switch {
+	case t.vbad+t.rbad >= nafMaxBad:
+		t.stopped = fmt.Sprintf("tabulation abandoned at w=%d pos=%d after %d violating leaves: further failures suppressed", t.wd, st.pos, t.vbad+t.rbad)
+		return
+	case time.Now().After(t.until):
+		t.stopped = fmt.Sprintf("undecided: budget exceeded: tabulation abandoned at w=%d pos=%d after %s of wall-clock time", t.wd, st.pos, nafTaskBudget)
+		return
+	}
 	out := t.run(st, assign)
 	if out.Branch != nil {
 		t.w.assign = assign
